@@ -167,3 +167,43 @@ class only_encoder:
         if self.xdg:
             os.environ['XDG_CACHE_HOME'] = self.xdg
         return False
+
+
+def linked_full_nonzero_only(spec, assigns) -> bool:
+    """True iff every given architecture has some LINKED selection-choice constraint ALL of whose members are active
+    with an option index other than 0.  The second known shape of the fast encoder's LINKED merging: a forced follower
+    that becomes active before the variable-carrying choice is taken is applied at option index 0 first."""
+    by_key = {c['key']: c for c in spec['sel']}
+    linked = [c['choices'] for c in spec['constraints'] if c['type'] == 'LINKED' and all(x in by_key
+                                                                                          for x in c['choices'])]
+    if not linked or not assigns:
+        return False
+    for a in assigns:
+        ok = False
+        for ch in linked:
+            if all(x in a for x in ch) and any(by_key[x]['options'].index(a[x]) != 0 for x in ch
+                                               if a[x] in by_key[x]['options']):
+                ok = True
+        if not ok:
+            return False
+    return True
+
+
+def linked_forced_is_first(gp) -> bool:
+    """State probe: is the FIRST choice (in the processor's own choice order) of some LINKED constraint marked forced,
+    i.e. left without a design variable?  The library keeps the variable on the first one; the known fast-encoder
+    LINKED findings concern forced LATER members only."""
+    try:
+        from adsg_core.graph.choice_constraints import ChoiceConstraintType
+        nodes = list(gp.selection_choice_nodes)
+        forced = list(gp._sel_choice_is_forced)
+        idx = {n: i for i, n in enumerate(nodes)}
+        for con in gp.graph.get_choice_constraints():
+            if con.type != ChoiceConstraintType.LINKED:
+                continue
+            ii = sorted(idx[n] for n in con.nodes if n in idx)
+            if len(ii) > 1 and forced[ii[0]]:
+                return True
+    except Exception:  # noqa
+        return False
+    return False
